@@ -42,6 +42,11 @@ CLAIMS["C16"] = ("bounded symbolic execution (symx, real arithmetic) of the real
          "with ALL operands symbolic reals, each painted subpath yields one shape with the transformed end points in order, the right class (line / closed axis-aligned quadrilateral / curve), flags, line width, dash, "
          "colours at painting time, q/Q restoring them, and n leaving no residue. K=2 quick, 3 thorough; floats as reals.",
          "4.C16")
+CLAIMS["C19"] = ("bounded symbolic execution (symx, symbolic pixels) of the real CCITTG4Parser coding steps, mode interpreter and ccittfaxdecode against the T.6 definitions and a reference T.6 encoder",
+         "From every line state (all reference-line bits, a0, colour, coded prefix symbolic; W=8 quick, 10 thorough) one vertical / pass / horizontal step does what T.6 2.2 defines; for every bitmap of the bounded "
+         "size (all pixels symbolic) and every admissible placement of a forced horizontal mode, with EncodedByteAlign/BlackIs1/EOFB as symbolic choices, decoding the reference encoder's output (mode level and bit "
+         "level) returns the rows; long rows across the 64/2560 make-up boundaries and the code tables are covered by enumeration harnesses.",
+         "4.C19")
 NA = {}
 def main():
     props = [json.loads(l) for l in open(os.path.join(ROOT, "properties.jsonl"))]
